@@ -141,4 +141,24 @@ example : lexAll (srcOfC ff0 exBody) false = .items (itemsOfC ff0 0 exBody) ∧
     ∃ nl, parseSource pf0 (srcOfC ff0 exBody) = .ok nl ∧ NodesMatch nl exBody :=
   body_source_spec_cmds ff0 pf0 exBody exBody_wf exBody_canon
 
+open SoyVerif.Props.C17d (NameOk frameSrc frameItems)
+
+/-- `template_frame_spec` without table hypotheses -/
+theorem template_frame_spec (ff : UInt64 → Bytes) (pf : Bytes → Option UInt64) (nm : Bytes) (hnm : NameOk nm) (b : CBody)
+    (hw : WFL ff b) (hc : CanonB ff pf b) :
+    lexAll (frameSrc ff nm b) false = .items (frameItems ff nm b) ∧
+      ∃ tpos lp nl, parseSource pf (frameSrc ff nm b) =
+          .ok [Node.template tpos (46 :: nm) (.list lp nl) .unspecified false] ∧ NodesMatch nl.toList b :=
+  SoyVerif.Props.C17d.template_frame_spec ff pf lexTableOK tableOK nm hnm b hw hc
+
+/-- non-vacuity: `{template .t1}Hi {$a ?: -1|truncate:$b ? 1 : 2,-3|id}⏎␣␣{$a}!{/template}` -/
+example : lexAll (frameSrc ff0 [116, 49] exBody) false = .items (frameItems ff0 [116, 49] exBody) ∧
+    ∃ tpos lp nl, parseSource pf0 (frameSrc ff0 [116, 49] exBody) =
+        .ok [Node.template tpos [46, 116, 49] (.list lp nl) .unspecified false] ∧ NodesMatch nl.toList exBody :=
+  template_frame_spec ff0 pf0 [116, 49] ⟨116, [49], rfl, by decide, by decide, fun r w h => by
+    have e : SoyVerif.Lemmas.LexPrint.runeAt [116, 49] = some (116, 1) := by decide
+    rw [e] at h
+    simp only [Option.some.injEq, Prod.mk.injEq] at h
+    rw [← h.1]; decide⟩ exBody exBody_wf exBody_canon
+
 end SoyVerif.Inst.C17c
